@@ -838,6 +838,104 @@ func judgeErrSites(c ErrCase) *eng.Fail {
 			}
 		}
 	}
+	// a call whose argument list contains a spread call is itself an ordinary call (and the other way round)
+	if !c.FailF && !c.FailG && !c.FailH {
+		var seen []string
+		rec := func(name string, xs []interface{}) {
+			parts := make([]string, len(xs))
+			for i, x := range xs {
+				parts[i] = show(x)
+			}
+			seen = append(seen, name+"("+strings.Join(parts, ",")+")")
+		}
+		nd := map[string]interface{}{
+			"inner": func(xs ...interface{}) (string, error) { rec("inner", xs); return "i" + strconv.Itoa(len(xs)), nil },
+			"nv":    func(a, b interface{}) (string, error) { rec("nv", []interface{}{a, b}); return "n", nil },
+			"fv": func(head interface{}, rest ...interface{}) (string, error) {
+				rec("fv", append([]interface{}{head}, rest...))
+				return "v" + strconv.Itoa(len(rest)), nil
+			},
+			"one": func(a interface{}) (string, error) { rec("one", []interface{}{a}); return "o", nil },
+		}
+		for _, tc := range [][2]string{
+			{"nv(inner([1, 2]...), 5)", "inner(num:1,num:2) nv(str:\"i2\",num:5)"},
+			{"fv(5, inner([1]...), [7, 8])", "inner(num:1) fv(num:5,str:\"i1\",[num:7,num:8])"},
+			{"fv(inner([1]...))", "inner(num:1) fv(str:\"i1\")"},
+			{"nv(1, nv(inner([2, 3]...), 4))", "inner(num:2,num:3) nv(str:\"i2\",num:4) nv(num:1,str:\"n\")"},
+			{"[nv(inner([1]...), 2), nv(3, 4)]", "inner(num:1) nv(str:\"i1\",num:2) nv(num:3,num:4)"},
+			{"one([fv(1, [2, 3]...), 4])", "fv(num:1,num:2,num:3) one([str:\"v2\",num:4])"},
+			{"fv(one(1), [inner([5]...)]...)", "one(num:1) inner(num:5) fv(str:\"o\",str:\"i1\")"},
+			{"one(true ? fv(1, [2]...) : 0)", "fv(num:1,num:2) one(str:\"v1\")"},
+			{"one(fv(1, [2]...) + 'x')", "fv(num:1,num:2) one(str:\"v1x\")"},
+			{"fv(1, [2]...) + one(3)", "fv(num:1,num:2) one(num:3)"},
+		} {
+			seen = nil
+			o, err := evalWith(tc[0], nd)
+			if err != nil || o.panicked {
+				return eng.F("C11/eval", "%s: %v %s", tc[0], err, o.panicMsg)
+			}
+			if got := strings.Join(seen, " "); got != tc[1] || o.err != nil {
+				return eng.F("C11/nested-spread", "%s: host calls [%s] error %v, expected [%s] and no error", tc[0], got, o.err, tc[1])
+			}
+		}
+	}
+	// every context-taking function receives the context of the evaluation it is called in, also after a
+	// host function has evaluated a sub-formula on the same runner under another context
+	if !c.FailF && !c.FailG && !c.FailH {
+		type k struct{}
+		outer := context.WithValue(context.Background(), k{}, "outer")
+		who := func(ctx context.Context) (string, error) {
+			if ctx == nil {
+				return "nil", nil
+			}
+			if ctx.Err() != nil {
+				return "cancelled", nil
+			}
+			v, _ := ctx.Value(k{}).(string)
+			return v, nil
+		}
+		sub, err := cachedParse("who() + '/' + who()")
+		if err != nil {
+			return eng.F("C11/parse", "%v", err)
+		}
+		var cur *formula.Runner
+		nd := map[string]interface{}{"who": who,
+			"nested": func(ctx context.Context) (interface{}, error) {
+				inner, cancel := context.WithCancel(context.WithValue(ctx, k{}, "inner"))
+				defer cancel()
+				return cur.Resolve(inner, sub.Expression) // the runner of the evaluation in progress (a closure over it)
+			},
+			"other": func(ctx context.Context) (interface{}, error) {
+				inner, cancel := context.WithCancel(context.WithValue(ctx, k{}, "other-runner"))
+				defer cancel()
+				r2 := formula.NewRunner()
+				r2.SetThis(map[string]interface{}{"who": who})
+				return r2.Resolve(inner, sub.Expression)
+			}}
+		for _, tc := range [][2]string{
+			{"[who(), nested(), who()]", "[outer inner/inner outer]"},
+			{"[nested(), who(), nested(), who()]", "[inner/inner outer inner/inner outer]"},
+			{"[other(), who()]", "[other-runner/other-runner outer]"},
+			{"nested() + who()", "inner/innerouter"},
+		} {
+			r := formula.NewRunner()
+			r.SetThis(nd)
+			cur = r
+			p, err := cachedParse(tc[0])
+			if err != nil {
+				return eng.F("C11/parse", "%s: %v", tc[0], err)
+			}
+			for round := 1; round <= 2; round++ {
+				o := safeResolve(r, outer, p.Expression)
+				if o.panicked || o.err != nil {
+					return eng.F("C11/eval", "%s: %v %s", tc[0], o.err, o.panicMsg)
+				}
+				if got := fmt.Sprint(o.val); got != tc[1] {
+					return eng.F("C11/context", "%s (evaluation %d, context value \"outer\"; nested and other evaluate who() + '/' + who() under a derived context): %s, expected %s", tc[0], round, got, tc[1])
+				}
+			}
+		}
+	}
 	// converting an argument for one parameter must not change the value other parameters / later reads see
 	if !c.FailF && !c.FailG && !c.FailH {
 		var gotI []int64
